@@ -823,6 +823,8 @@ func init() {
 						what = "obj" // an identifier that denotes no object has nothing to reject (and nothing to ask)
 					case af.isCall(d, "go/types.Info.TypeOf") != nil:
 						what = "type"
+					case isErrorType(af.Info.TypeOf(x)) && af.C.failureRet[callOf(d)] != nil:
+						what = "helper-error" // the error of a helper analysed in place: its own conditions follow
 					}
 					if isNil {
 						return what + "==nil"
@@ -881,7 +883,7 @@ func init() {
 				for _, g := range rj.conds {
 					s := classify(g)
 					all = append(all, s)
-					if s == "err==nil" || s == "ok" || s == "!ok" || s == "obj.Pkg()!=nil" || s == "obj!=nil" || s == "type!=nil" || s == "loop" || s == "literal-has-elements" {
+					if s == "err==nil" || s == "ok" || s == "!ok" || s == "obj.Pkg()!=nil" || s == "obj!=nil" || s == "type!=nil" || s == "loop" || s == "literal-has-elements" || s == "helper-error!=nil" {
 						continue
 					}
 					// "the other rejection did not fire" (its if-body ends the callback)
@@ -1013,4 +1015,9 @@ func callRejection(fi *FuncInfo, cc *ast.CaseClause, setsFalse func(ast.Stmt) bo
 		other++
 	}
 	return notType && underSig && other == 0
+}
+
+func callOf(e ast.Expr) *ast.CallExpr {
+	c, _ := ast.Unparen(e).(*ast.CallExpr)
+	return c
 }
